@@ -14,6 +14,7 @@
 #include <fstream>
 #include <iostream>
 #include <iterator>
+#include <new>
 #include <string>
 #include <vector>
 #include <gsl/gsl_rng.h>
@@ -54,8 +55,9 @@ int main(int argc, char **argv) {
       const long long seed = std::strtoll(s.c_str(), nullptr, 10);
       delete g;
       g = new RandomGenerator((int_fast32_t)seed);
+      // gsl 2.7.1: "i = seed & 0xffffffffUL" into an int, so seeds with bit 31 set are outside its domain
+      ref_valid = (((unsigned long)seed) & 0x80000000UL) == 0;
       gsl_rng_set(ref, (unsigned long)seed);
-      ref_valid = true;
       print_state("S", *g);
     } else if (op == 'X') {
       uint64_t w[13];
@@ -130,8 +132,12 @@ int main(int argc, char **argv) {
         printf("\n");
       }
       {
+        // the restored object is built in memory filled with 0xff (NaN doubles, huge integers), so a member
+        // the restart constructor does not read shows up instead of silently keeping a stale value
         RestartReader r(tmp);
-        RandomGenerator *n = new RandomGenerator(r);
+        void *mem = ::operator new(sizeof(RandomGenerator));
+        std::memset(mem, 0xff, sizeof(RandomGenerator));
+        RandomGenerator *n = new (mem) RandomGenerator(r);
         delete g;
         g = n;
       }
